@@ -129,6 +129,23 @@ def run(ctx, variants=(("verif", "c04"), ("verif,unsafe", "c04u"))):
                 lying.append("%s %s %s" % (f[0], f[1], bytes(b[:o + 4]).hex()))
         cases += lying[:2]
         lying_all |= set(c.split(" ")[2] for c in lying[:2])
+        # (a3') the same with EVERY top-level int32 / compact length or count field of every response type x version (strings,
+        #       bytes, arrays, tagged-field sizes): size prefix 2^31-1, the field set to 0x7f000000 (within the announced rest),
+        #       the frame cut right after the field and 3 bytes later.  Only ~20 bytes were received: error, no allocation
+        nly = 0
+        for f, raw, fields in parsed:
+            top = [x for x in fields if x["kind"] in ("i32", "uv") and x["off"] >= 8 and not x["crc"] and len(x["encl"]) == 1]
+            if ctx.tier != "thorough":
+                top = top[:4]
+            for x in top:
+                o, w = x["off"], x["width"]
+                huge = bytes.fromhex("7f000000") if x["kind"] == "i32" else codec.enc_uv(0x7f000000)
+                b = bytearray(raw[:o]) + huge
+                b[0:4] = bytes.fromhex("7fffffff")
+                for tail in (b"", b"\x01\x02\x03"):
+                    cases.append("%s %s %s" % (f[0], f[1], (bytes(b) + tail).hex()))
+                    nly += 1
+        ctx.coverage["lying_size_and_length_cases"] = ctx.coverage.get("lying_size_and_length_cases", 0) + nly
         # (b) extra: blind overwrites at random offsets
         gen, rc, err = ctx.run_driver(drv, ["-malgen"])
         if rc != 0:
